@@ -887,6 +887,10 @@ def load_table(tbl):
     cls = e['classes'][tbl['cls']]
     conn.query('DELETE FROM %s' % cls.sqlmeta.table)
     conn.query('DELETE FROM %s' % Oth.sqlmeta.table)
+    try:        # ids restart at 1 for every table, so that cases are reproducible
+        conn.query("DELETE FROM sqlite_sequence WHERE name IN ('%s', '%s')" % (cls.sqlmeta.table, Oth.sqlmeta.table))
+    except Exception:
+        pass
     conn.cache.clear()
     oth_objs = [Oth(g=g) for g in tbl['oth']]
     for a, b, s, fk, alt, p in tbl['rows']:
@@ -1027,7 +1031,7 @@ def run(ctx):
     rng = ctx.rng
     for fn, c in corpus_cases():
         run_table(ctx, c['table'], [(ph.get('mutations', []), ph['queries']) for ph in c['phases']], 'corpus:' + fn)
-    n_tables = ctx.budget(170, 6000)
+    n_tables = ctx.budget(800, 20000)
     for _ in range(n_tables):
         tbl = gen_table(rng)
         phases = [(0, 8)] + [(rng.choice([1, 2, 3]), 8) for _ in range(rng.choice([0, 1, 2]))]
